@@ -6,7 +6,9 @@ EXTENDS EvalBig, TLC, Json, IOUtils
 ASSUME BigSelfCheck
 Events == ndJsonDeserialize(IOEnv.TRACE_FILE)
 N == Len(Events)
-Verdict(e) ==
+\* o.neg: the observed number is negative - a negative int, a float with its sign bit set (this includes -0.0) or -inf
+SignVerdict(e) == IF e.obs.t \in {"int", "float", "inf"} /\ e.obs.neg /\ NonNeg(e.term, e.ctx) THEN {"negative_result_of_nonnegative_expression"} ELSE {}
+ValueVerdict(e) ==
   LET o == e.obs  t == e.term  ctx == e.ctx IN
   IF AnyMissing(t, ctx) THEN (IF o.t = "exc" THEN {} ELSE {"missing_variable_not_reported"}) ELSE
   IF IntUnequal(t, ctx) THEN (IF o.t = "exc" THEN {} ELSE {"unequal_equation_not_raised"}) ELSE
@@ -27,6 +29,7 @@ Verdict(e) ==
        ELSE IF o.t = "int" THEN (IF IsSmall(o.b) /\ <<SmallInt(o.b), 1>> = q THEN {} ELSE {"float_result_wrong"})
        ELSE IF o.t = "exc" THEN {"raises_on_defined_expression"}
        ELSE {"float_result_wrong"}
+Verdict(e) == SignVerdict(e) \cup ValueVerdict(e)
 VARIABLES i, v
 Init == i \in 1..N /\ v = {"pending"}
 Next == v = {"pending"} /\ v' = Verdict(Events[i]) /\ UNCHANGED i
